@@ -245,6 +245,11 @@ def stepLine (st : St) (line : String) : St × String :=
           (.sop st p' zt, s!"{p'.sop.avail} {p'.sop.objs.length} {p'.ctor.length} {p'.dtor.length}{if p'.sop.fault then " FAULT" else ""}")
         | none => (st', "fault")
       | none => bad
+    | .sop st p zt, ["ct"] =>
+      -- `create(args…)` whose constructor throws: the cell goes back to the pool, no object, no ledger entry
+      let (threw, sop') := p.sop.createThrow
+      let p' : SOPx := { p with sop := sop' }
+      (.sop st p' zt, s!"{if threw then "throw" else "null"} {p'.sop.avail} {p'.sop.objs.length} {p'.ctor.length} {p'.dtor.length}{if p'.sop.fault then " FAULT" else ""}")
     | .sop st p zt, ["x", n] =>
       match n.toNat? with
       | some n =>
